@@ -34,12 +34,12 @@ open LA.RD
 state and every script, well-formed or not, including the bytes written before
 an error status is returned. -/
 theorem read_data_bounded (h : H) (s : Nat) : (readData h s).1.written.length ≤ s := by
-  obtain ⟨⟨add, ha, hl⟩, _⟩ := readLoop_frame h s []
+  obtain ⟨⟨add, ha, hl⟩, _⟩ := readLoop_frame (enterReadData h) s []
   unfold readData; rw [ha]; simpa using hl
 
 /-- Non-vacuity: a 3-byte block at offset 2, buffer of 4: 2 zero bytes and 2 data bytes. -/
 example : (readData { state := .data, evs := [evOfBlock (2, [7, 8, 9])] } 4).1 = .ok [0, 0, 7, 8] := by
-  simp [readData, readLoop, step, fetch, dataBlock, store, padCopy, padLen, evOfBlock]
+  simp [readData, enterReadData, readLoop, step, fetch, dataBlock, store, padCopy, padLen, evOfBlock]
 
 /-! ### The dense image -/
 
@@ -50,7 +50,7 @@ theorem read_data_exact (h : H) (bl : List Block) (hi : Inv h bl) (ho : (pend h 
       pend h' bl' = ((pend h bl).1.drop s, .eof) := by
   obtain ⟨h', bl', hi', hr, hp⟩ := readLoop_spec h s [] bl hi
   refine ⟨h', bl', hi', ?_, by rw [hp, ho]⟩
-  unfold readData; rw [hr]; simp [ho]
+  unfold readData; rw [enterReadData_data h hi.st, hr]; simp [ho]
 
 /-- **`read_data_dense`.**  For every well-formed block list and EVERY sequence of
 buffer sizes, the successive `archive_read_data` calls all succeed and return
@@ -143,7 +143,7 @@ theorem retry_iff_disorder (h : H) (bl : List Block) (hi : Inv h bl) (s : Nat) :
       ((pend h bl).2 = .disorder ∧ (pend h bl).1.length < s)) := by
   obtain ⟨h', bl', _, hr, _⟩ := readLoop_spec h s [] bl hi
   unfold readData
-  rw [hr]
+  rw [enterReadData_data h hi.st, hr]
   by_cases hc : s ≤ (pend h bl).1.length ∨ (pend h bl).2 = .eof
   · simp only [hc, if_true]
     refine ⟨fun e l x => (by cases x), ⟨fun ⟨l, x⟩ => (by cases x), fun ⟨x, y⟩ => ?_⟩⟩
@@ -173,10 +173,10 @@ theorem retry_iff_disorder_fresh (h : H) (bl : List Block) (t : Option Int) (hf 
 /-- Non-vacuity: the second block overlaps the first. -/
 example : (readData { state := .data, evs := [evOfBlock (0, [1, 2, 3]), evOfBlock (2, [9])] } 4).1
     = .err .retry [1, 2, 3] := by
-  simp [readData, readLoop, step, fetch, dataBlock, store, padCopy, padLen, evOfBlock]
+  simp [readData, enterReadData, readLoop, step, fetch, dataBlock, store, padCopy, padLen, evOfBlock]
 example : (readData { state := .data, evs := [evOfBlock (0, [1, 2, 3]), evOfBlock (2, [9])] } 3).1
     = .ok [1, 2, 3] := by
-  simp [readData, readLoop, step, fetch, dataBlock, store, padCopy, padLen, evOfBlock]
+  simp [readData, enterReadData, readLoop, step, fetch, dataBlock, store, padCopy, padLen, evOfBlock]
 
 /-! ### Progress -/
 
@@ -187,9 +187,12 @@ one byte or a negative status.) -/
 theorem read_data_progress (h : H) (s : Nat) (hs : 1 ≤ s) (h' : H)
     (hr : readData h s = (.ok [], h')) :
     h'.evs.length < h.evs.length ∨ (h.evs = [] ∧ h.term.st = .eof) := by
-  have := readLoop_progress h s [] hs
+  have := readLoop_progress (enterReadData h) s [] hs
   unfold readData at hr
   rw [hr] at this
+  have he : (enterReadData h).evs = h.evs ∧ (enterReadData h).term = h.term := by
+    unfold enterReadData; split <;> exact ⟨rfl, rfl⟩
+  rw [he.1, he.2] at this
   rcases this with ⟨e, l, x⟩ | x | x | x
   · cases x
   · simp [Ret.written] at x
@@ -198,7 +201,7 @@ theorem read_data_progress (h : H) (s : Nat) (hs : 1 ≤ s) (h' : H)
 
 set_option maxRecDepth 4096 in
 example : (readData { state := .data, evs := [evOfBlock (0, [])] } 5).1 = .ok [] := by
-  simp [readData, readLoop, step, fetch, dataBlock, store, padCopy, padLen, evOfBlock, TSt.toSt]
+  simp [readData, enterReadData, readLoop, step, fetch, dataBlock, store, padCopy, padLen, evOfBlock, TSt.toSt]
 
 /-! ### Skipping and the next header -/
 
